@@ -34,6 +34,7 @@ struct Ctx {
     int npend = 0, next_pend = 0, next_resolve = 0;
     int nexty = 1;
     std::vector<int> args_seen;  // argument received at each resumption (generator with argument)
+    bool late_arg = false;       // the body performs its first (awaiting) step before it reads the first argument
     int body_runs = 0;
 };
 
@@ -56,9 +57,20 @@ static cocls::generator<int> body(Ctx &c) {
 static cocls::generator<int, int> body_arg(Ctx &c) {
     Guard g;
     c.body_runs++;
+    size_t first = 0;
+    if (c.late_arg) {
+        // the body awaits something before it looks at the argument of the call that started it
+        first = 1;
+        if (c.script[0] == AR) {
+            cocls::future<int> r = cocls::future<int>::set_value(1);
+            co_await r;
+        } else
+            co_await c.pend[c.next_pend++];
+    }
     int a = co_yield nullptr;  // argument of the call that started the generator
     c.args_seen.push_back(a);
-    for (int st : c.script) {
+    for (size_t si = first; si < c.script.size(); si++) {
+        int st = c.script[si];
         switch (st) {
             case Y:
                 a = co_yield c.nexty++;
@@ -167,9 +179,10 @@ static Obs access_sync(G &gen, int style, int arg) {
     return o;
 }
 
-static std::string describe(bool with_arg, const std::vector<int> &bs, const std::vector<int> &cs) {
+// with_arg: 0 = generator without argument, 1 = with argument, 2 = with argument that the body reads only after its first await
+static std::string describe(int with_arg, const std::vector<int> &bs, const std::vector<int> &cs) {
     std::ostringstream o;
-    o << "arg=" << (with_arg ? 1 : 0) << ";body=";
+    o << "arg=" << with_arg << ";body=";
     for (size_t i = 0; i < bs.size(); i++) o << (i ? "," : "") << bs_names[bs[i]];
     o << ";consumer=";
     for (size_t i = 0; i < cs.size(); i++) o << (i ? "," : "") << cs_names[cs[i]];
@@ -177,13 +190,14 @@ static std::string describe(bool with_arg, const std::vector<int> &bs, const std
 }
 
 template <typename G>
-static void run_case_t(seqx::Runner &R, bool with_arg, const std::vector<int> &bs, const std::vector<int> &cs) {
+static void run_case_t(seqx::Runner &R, int with_arg, const std::vector<int> &bs, const std::vector<int> &cs) {
     R.begin(describe(with_arg, bs, cs));
     int64_t base = seqx::live_allocs();
     g_guard_live = 0;
     {
         Ctx c;
         c.script = bs;
+        c.late_arg = with_arg == 2;
         for (int st : bs)
             if (st == AP) {
                 c.pend_p[c.npend] = c.pend[c.npend].get_promise();
@@ -300,14 +314,14 @@ static void run_case_t(seqx::Runner &R, bool with_arg, const std::vector<int> &b
     R.end(true);
 }
 
-static void run_case(seqx::Runner &R, bool with_arg, const std::vector<int> &bs, const std::vector<int> &cs) {
+static void run_case(seqx::Runner &R, int with_arg, const std::vector<int> &bs, const std::vector<int> &cs) {
     if (with_arg)
         run_case_t<cocls::generator<int, int>>(R, with_arg, bs, cs);
     else
         run_case_t<cocls::generator<int>>(R, with_arg, bs, cs);
 }
 
-static void enum_consumer(seqx::Runner &R, bool with_arg, const std::vector<int> &bs, bool has_pending, int maxc, std::vector<int> &cs) {
+static void enum_consumer(seqx::Runner &R, int with_arg, const std::vector<int> &bs, bool has_pending, int maxc, std::vector<int> &cs) {
     if (R.stop()) return;
     if (!cs.empty() && (cs.back() == DESTROY || (int)cs.size() == maxc)) {
         if (R.next_case()) run_case(R, with_arg, bs, cs);
@@ -326,9 +340,10 @@ static void enum_body(seqx::Runner &R, int maxb, int maxc, std::vector<int> &bs)
     if (R.stop()) return;
     bool has_pending = false;
     for (int s : bs) has_pending |= s == AP;
-    for (int with_arg = 0; with_arg < 2; with_arg++) {
+    for (int with_arg = 0; with_arg < 3; with_arg++) {
+        if (with_arg == 2 && (bs.empty() || (bs[0] != AP && bs[0] != AR))) continue;
         std::vector<int> cs;
-        enum_consumer(R, with_arg != 0, bs, has_pending, maxc, cs);
+        enum_consumer(R, with_arg, bs, has_pending, maxc, cs);
     }
     if ((int)bs.size() == maxb) return;
     if (!bs.empty() && bs.back() == THROW) return;
@@ -506,7 +521,7 @@ void seqx_replay(seqx::Runner &R, const std::string &c) {
         run_acc(R, n, st);
         return;
     }
-    bool with_arg = c.find("arg=1") != std::string::npos;
+    int with_arg = c.find("arg=2") != std::string::npos ? 2 : c.find("arg=1") != std::string::npos ? 1 : 0;
     auto parse = [&](const std::string &key, const char *const *names, int n) {
         std::vector<int> out;
         size_t p = c.find(key);
